@@ -1,5 +1,6 @@
 """C08 — Views are isolated, share ids and types, and every handle sees the same state."""
 from harness import sessions, tsgen
+from harness.common import bud
 from harness.sessions import SB
 
 PROP = "C08"
@@ -203,7 +204,7 @@ def run(ctx, out, budget):
                 "covered text over up to 4 views and many live handles, lenient and strict roots; every sofa field, select_all and "
                 "leniency is read through every live handle of the view. Non-trivial = distinct sessions with >= 2 views and >= 3 handles.")
     rng = ctx.rng(0)
-    n = 250 if budget == "quick" else 24000
+    n = bud(budget, 250, 24000)
     evaluate(ctx, out, [gen_session(rng, rng.randint(20, 60)) for _ in range(n)])
 
 
